@@ -2,6 +2,7 @@
 # usage: tools/run_all.sh [quick|thorough]   (VERIF_SEED honoured)
 cd "$(dirname "$0")/.." || exit 2
 TIER="${1:-quick}"
+mkdir -p out
 rc=0
 for p in C01 C02 C03 C04 C05 C06 C07 C08 C09 C10 C11 C12 C13 C14 C15 C16 C17 C18 C19 C20; do
   ./check $p --tier $TIER > out/last_$p.txt 2>&1
